@@ -115,6 +115,9 @@ fn parse_color(word: &str) -> Result<Option<anstyle::Color>, ()> {
                 if l != 3 && l != 6 {
                     return Err(());
                 }
+                if !hex.bytes().all(|b| b.is_ascii_hexdigit()) {
+                    return Err(());
+                }
                 let l = l / 3;
                 if let (Ok(r), Ok(g), Ok(b)) = (
                     u8::from_str_radix(&hex[0..l], 16),
